@@ -264,7 +264,7 @@ def make(kind, rng, x0, ints_only=False):
         c = n()
         return c + p, ('seq', [c + v for v in vals])
     if kind == 'chan':
-        vals = [n() for _ in range(rng.randint(1, 4))]
+        vals = [n() for _ in range(rng.randint(1, 4) if rng.random() > 0.04 else 0)]
         return m['ugn'].ChannelList(list(vals)), ('chan', list(vals))
     if kind == 'nchan':
         vals = [n(), [n(), n()], (n(),) if rng.random() < 0.5 else n()]
